@@ -5,7 +5,13 @@
     FAILED with the concrete input -- this also fires when the artefact is stale w.r.t. the source);
 (2) thorough tier: the Cython generated C is recompiled with -fopenmp into a mktemp directory
     outside /repo and /verif (deleted afterwards) and the kernels are run in a fresh interpreter for
-    num_threads in {None,1,2,3,4,8,16}; results must be bit-identical.
+    num_threads in {None,1,2,3,4,8,16}; results must be bit-identical;
+(3) ``artefact.defining_sums`` (both tiers, independent of the lowering): the installed compiled
+    kernel vs the reference evaluation of the defining sums in kern_ref.py, for every num_threads in
+    THREADS, plus bit-identity of the compiled results across those num_threads values.
+
+A function whose source (or the source of a callee) is outside the lowering subset cannot be
+interpreted: its ``artefact.differential`` obligation is UNDECIDED (never held); (3) still runs.
 """
 from __future__ import annotations
 
@@ -22,7 +28,7 @@ import zlib
 
 import numpy as np
 
-from . import core, kern_interp, kern_native, lower_pyx
+from . import core, kern_interp, kern_native, kern_ref, lower_pyx
 
 THREADS = [None, 1, 2, 3, 4, 8, 16]
 
@@ -159,7 +165,13 @@ def sizes_for(tier, entry):
 
 def _one_entry(args):
     relpath, entry, tier, seed = args
-    low = lower_pyx.lower_file(relpath)
+    try:
+        low = lower_pyx.lower_file(relpath)
+    except lower_pyx.LoweringError as e:
+        return {"status": "unlowered", "detail": str(e)}
+    if entry in low.tainted:
+        return {"status": "unlowered", "detail": low.failed.get(entry) or "; ".join(
+            "callee %s: %s" % kv for kv in sorted(low.failed.items()))}
     fi = low.funcs[entry]
     mod = kern_native.load_compiled(low)
     if mod is None or not hasattr(mod, entry):
@@ -207,17 +219,74 @@ def _one_entry(args):
             "sizes": [sizes[0], sizes[-1]], "time": time.time() - t0}
 
 
-def run_differential(rep, prop, eng, tier, seed, only=None):
+def defsum_sizes(tier):
+    return list(range(0, 25)) + ([] if tier == "quick" else [32, 48, 64])
+
+
+def _one_defsum(args):
+    """artefact.defining_sums of one entry point: needs the compiled module only"""
+    relpath, entry, tier, seed = args
+    t0 = time.time()
+    mod = kern_native.load_compiled_rel(relpath)
+    if mod is None or not hasattr(mod, entry):
+        return {"status": "error", "detail": "compiled artefact for %s not loadable: %s"
+                % (lower_pyx.short_of(relpath), kern_native._SO_CACHE.get(relpath + "!err", "missing"))}
+    rng = np.random.default_rng([seed, zlib.crc32(entry.encode()) % 100003, 11])
+    sizes = defsum_sizes(tier)
+    ncase = 0
+    stats = {}
+    for n in sizes:
+        for rep_ in range(4 if n <= 8 else 3):
+            inp = gen_inputs(entry, rng, n)
+            ncase += 1
+            try:
+                w = kern_ref.check_case(mod, entry, inp, THREADS, stats)
+            except Exception as e:              # the reference itself failed: checker error
+                import traceback
+                return {"status": "error", "detail": "reference evaluation failed: %r\n%s"
+                                                     % (e, traceback.format_exc()[-600:])}
+            if w is not None:
+                if w.get("checker_error"):
+                    return {"status": "error", "detail": "%s (num_threads=%r): %s"
+                                                         % (w["class"], w["num_threads"], w["compiled"])}
+                w = dict(w, size=n, inputs=kern_native.jsonable_inputs(inp))
+                return {"status": "failed", "cases": ncase, "witness": w, "inputs": w["inputs"]}
+    return {"status": "ok", "cases": ncase, "sizes": [sizes[0], sizes[-1]], "time": time.time() - t0,
+            "max_abs_dev": stats.get("max_abs_dev", 0.0), "max_tol_used": stats.get("max_tol_used", 0.0)}
+
+
+def _task(args):
+    return (_one_defsum if args[0] == "defsum" else _one_entry)(args[1:])
+
+
+def _wanted(only, fn):
+    return not only or only in fn or only in "artefact"
+
+
+def run_differential(rep, prop, eng, tier, seed, only=None, defining_sums=True):
+    """artefact.differential (+ artefact.defining_sums) obligations; one pool for both"""
     import multiprocessing
-    todo = [(rp, fn) for rp, fn in ENTRY_POINTS if not only or only in fn or only in "artefact"]
+    todo = [("diff", rp, fn) for rp, fn in ENTRY_POINTS if _wanted(only, fn)]
+    if defining_sums:
+        todo += [("defsum", rp, fn) for rp, fn in kern_ref.ENTRY_POINTS if _wanted(only, fn)]
     ctx = multiprocessing.get_context("fork")
     with ctx.Pool(min(12, len(todo) or 1)) as pool:
-        results = pool.map(_one_entry, [(rp, fn, tier, seed) for rp, fn in todo], chunksize=1)
+        results = pool.map(_task, [(k, rp, fn, tier, seed) for k, rp, fn in todo], chunksize=1)
     summary = {}
-    for (rp, fn), r in zip(todo, results):
-        low = eng.lows[rp]
-        fid = "%s:%s" % (low.short, fn)
-        oid = "%s/%s/artefact.differential" % (prop, eng.id_stem(low, fn))
+    dsummary = {}
+    for (kind, rp, fn), r in zip(todo, results):
+        fid = "%s:%s" % (lower_pyx.short_of(rp), fn)
+        if kind == "defsum":
+            _defsum_verdict(rep, prop, eng, rp, fn, fid, r, tier, seed, dsummary)
+            continue
+        low = eng.lows.get(rp)
+        oid = "%s/%s/artefact.differential" % (prop, eng.id_stem(rp, fn))
+        if r["status"] == "unlowered" or low is None:
+            rep.add(core.Obligation(oid, core.UNDECIDED, backend="kernvc",
+                                    detail="source outside the supported subset: %s (no interpretation of the "
+                                           "source to compare the compiled artefact with)"
+                                           % r.get("detail", eng.unlowered.get(rp)), functions=[fid]))
+            continue
         stale = bool(lower_pyx.stale_lines(low))
         if r["status"] == "ok":
             bound = ("interpreted lowered .pyx == compiled .so on %d seed-driven inputs, principal sizes "
@@ -237,6 +306,56 @@ def run_differential(rep, prop, eng, tier, seed, only=None):
         else:
             rep.add(core.Obligation(oid, core.ERROR, backend="differential", detail=r["detail"], functions=[fid]))
     rep.extra["artefact_differential"] = summary
+    if defining_sums:
+        rep.extra["artefact_defining_sums"] = dsummary
+
+
+def _defsum_verdict(rep, prop, eng, rp, fn, fid, r, tier, seed, dsummary):
+    oid = "%s/%s/artefact.defining_sums" % (prop, eng.id_stem(rp, fn))
+    if r["status"] == "ok":
+        bound = ("installed compiled kernel == reference evaluation of the defining sums (gsvc/kern_ref.py; "
+                 "rtol %.0e, atol %.0e*max(1,|ref|max), counts exact, NaN positions equal) for every num_threads "
+                 "in %s, and the compiled results for those num_threads bit-identical to each other, on %d "
+                 "seed-driven inputs, principal sizes %d..%d (NaNs in the field where allowed), VERIF_SEED=%d; "
+                 "largest deviation %.1e = %.1e of the tolerance"
+                 % (kern_ref.RTOL, kern_ref.ATOL, THREADS, r["cases"], r["sizes"][0], r["sizes"][1], seed,
+                    r["max_abs_dev"], r["max_tol_used"]))
+        rep.add(core.Obligation(oid, core.BOUNDED, backend="native-reference", time_s=r["time"], bound=bound,
+                                functions=[fid]))
+        dsummary[fid] = {"cases": r["cases"], "calls_of_the_compiled_kernel": r["cases"] * len(THREADS),
+                         "max_abs_dev": r["max_abs_dev"], "max_fraction_of_tolerance_used": r["max_tol_used"]}
+    elif r["status"] == "failed":
+        w = r["witness"]
+        rep.add(core.Obligation(oid, core.FAILED, backend="native-reference",
+                                detail="%s: num_threads=%r, size %s, %s" % (
+                                    w["class"], w.get("num_threads"), w.get("size"),
+                                    ", ".join("%s=%r" % (k, w[k]) for k in ("component", "index", "reference",
+                                                                              "compiled", "a", "b") if k in w)),
+                                witness=w, functions=[fid],
+                                replay={"kind": "defining_sums", "relpath": rp, "function": fn,
+                                        "inputs": r["inputs"], "num_threads": w.get("num_threads")}))
+    else:
+        rep.add(core.Obligation(oid, core.ERROR, backend="native-reference", detail=r["detail"], functions=[fid]))
+
+
+def replay_defining_sums(rp):
+    """re-run a recorded artefact.defining_sums witness against the installed compiled kernel"""
+    mod = kern_native.load_compiled_rel(rp["relpath"])
+    if mod is None or not hasattr(mod, rp["function"]):
+        print("compiled artefact for %s not loadable" % rp["relpath"])
+        return 3
+    inp = kern_ref.inputs_from_json(rp["inputs"])
+    threads = list(THREADS)
+    if rp.get("num_threads") not in threads:
+        threads.append(rp.get("num_threads"))
+    w = kern_ref.check_case(mod, rp["function"], inp, threads)
+    if w is None:
+        print("not reproduced: compiled %s agrees with the defining sums for num_threads in %s and is "
+              "bit-identical across them" % (rp["function"], threads))
+        return 0
+    print(json.dumps(core._jsonable(w), indent=1)[:3000])
+    print("REPRODUCED: %s" % w["class"])
+    return 1
 
 
 # ------------------------------------------------------------------------------------------------
@@ -276,7 +395,9 @@ def run_threads(rep, prop, eng, seed, only=None):
         pyinc = sysconfig.get_paths()["include"]
         npinc = np.get_include()
         procs = {}
-        for rp, low in eng.lows.items():
+        for rp in lower_pyx.KERNEL_FILES:
+            # needs the paths only: also works for a file whose .pyx cannot be lowered
+            low = eng.lows.get(rp) or lower_pyx.Lowered(rp)
             c = lower_pyx.generated_c_path(low)
             name = low.short[:-4].split("/")[-1]
             if c is None:
@@ -294,27 +415,25 @@ def run_threads(rep, prop, eng, seed, only=None):
                 p.kill()
                 err = "compile timeout"
             built[rp] = (so, name, p.returncode == 0 and os.path.exists(so), (err or "")[-600:], " ".join(cmd))
-        rep.extra["openmp_rebuild"] = {eng.lows[rp].short: {"ok": b[2], "cmd": b[4]} for rp, b in built.items()}
+        rep.extra["openmp_rebuild"] = {lower_pyx.short_of(rp): {"ok": b[2], "cmd": b[4]} for rp, b in built.items()}
         for rp, fn in ENTRY_POINTS:
             if fn == "set_num_threads" or (only and only not in fn and only not in "artefact"):
                 continue
-            low = eng.lows[rp]
-            fid = "%s:%s" % (low.short, fn)
-            oid = "%s/%s/artefact.threads_bitwise" % (prop, eng.id_stem(low, fn))
+            fid = "%s:%s" % (lower_pyx.short_of(rp), fn)
+            oid = "%s/%s/artefact.threads_bitwise" % (prop, eng.id_stem(rp, fn))
             if rp not in built or not built[rp][2]:
                 rep.add(core.Obligation(oid, core.ERROR, backend="openmp-rebuild",
                                         detail="rebuild with -fopenmp failed: %s" % (built.get(rp, ("", "", 0, "no C"))[3]),
                                         functions=[fid]))
                 continue
             so, name = built[rp][0], built[rp][1]
-            fi = low.funcs[fn]
             rng = np.random.default_rng([seed, zlib.crc32(fn.encode()) % 100003, 9])
             cases = []
             raw = []
             for n in [0, 1, 2, 3, 5, 8, 13, 21, 34, 55, 89, 144]:
                 inp = gen_inputs(fn, rng, n)
                 raw.append(inp)
-                cases.append((fn, _args(fi, inp), THREADS))
+                cases.append((fn, [inp[p_] for p_ in kern_ref.SIGNATURES[fn]], THREADS))
             cp = os.path.join(tmp, "cases_%s.pkl" % fn)
             pickle.dump(cases, open(cp, "wb"))
             t0 = time.time()
